@@ -141,7 +141,8 @@ crypt_sha1crypt_rn (const char *phrase, size_t phr_size,
   /* The next 1..CRYPT_SHA1_SALT_LENGTH bytes should be itoa64 characters,
      followed by another '$' (or end of string).  */
   sp = setting + strspn (setting, (const char *)itoa64);
-  if (sp == setting || (*sp && *sp != '$'))
+  if (sp == setting || (*sp && *sp != '$') ||
+      (size_t)(sp - setting) > CRYPT_SHA1_SALT_LENGTH)
     {
       errno = EINVAL;
       return;
